@@ -300,4 +300,50 @@ theorem airborne_position_ieee_close (e o : Msg)
         |q.1 - p.lat| ≤ 1 / 10 ^ 11 ∧ |q.2 - p.lon| ≤ 1 / 10 ^ 11) :=
   airborne_position_f64_close IeeeRound.fl64 IeeeRound.rounding_fl64 e o hpe hpo he ho M
 
+/-- … and, read the other way: whenever the exact model returns a position `p` (in either order of the pair),
+    the float-level computation returns a position too, within `10⁻¹¹` degrees of `p` on both axes -/
+theorem airborne_position_f64_some (fl : ℚ → ℚ) (R : Rounding fl) (e o : Msg)
+    (hpe : e.parity = .even) (hpo : o.parity = .odd)
+    (he : e.lat < 131072 ∧ e.lon < 131072) (ho : o.lat < 131072 ∧ o.lon < 131072) (M : Margin e o) :
+    (∀ p : Pos, airbornePosition e o = .ok (some p) → ∃ q, fAirbornePosition fl e o = some q ∧
+        |q.1 - p.lat| ≤ 1 / 10 ^ 11 ∧ |q.2 - p.lon| ≤ 1 / 10 ^ 11) ∧
+    (∀ p : Pos, airbornePosition o e = .ok (some p) → ∃ q, fAirbornePosition fl o e = some q ∧
+        |q.1 - p.lat| ≤ 1 / 10 ^ 11 ∧ |q.2 - p.lon| ≤ 1 / 10 ^ 11) := by
+  obtain ⟨⟨n1, s1⟩, ⟨n2, s2⟩⟩ := airborne_position_f64_close fl R e o hpe hpo he ho M
+  constructor
+  · intro p hp
+    cases hf : fAirbornePosition fl e o with
+    | none => rw [n1.mp hf] at hp; cases hp
+    | some q =>
+      obtain ⟨p', hp', c⟩ := s1 q hf
+      rw [hp] at hp'; cases hp'
+      exact ⟨q, rfl, c⟩
+  · intro p hp
+    cases hf : fAirbornePosition fl o e with
+    | none => rw [n2.mp hf] at hp; cases hp
+    | some q =>
+      obtain ⟨p', hp', c⟩ := s2 q hf
+      rw [hp] at hp'; cases hp'
+      exact ⟨q, rfl, c⟩
+
+/-! ### the margin is decidable (a finite conjunction of comparisons of rationals) -/
+
+theorem marginAt_iff (δ : ℚ) (e o : Msg) : MarginAt δ e o ↔
+    (nlFar δ (gLatE e o) ∧ nlFar δ (gLatO e o) ∧ δ < |gLatO0 e o - 270| ∧ δ < |gLatO e o - 90| ∧
+      δ < |gLatO e o + 90| ∧ δ < |gLon0 e o (nl (gLatE e o)) 0 e.lon - 180| ∧
+      δ < |gLon0 e o (nl (gLatO e o)) 1 o.lon - 180|) :=
+  ⟨fun M => ⟨M.1, M.2, M.3, M.4, M.5, M.6, M.7⟩, fun ⟨a, b, c, d, e', f, g⟩ => ⟨a, b, c, d, e', f, g⟩⟩
+
+instance (δ : ℚ) (e o : Msg) : Decidable (MarginAt δ e o) := decidable_of_iff _ (marginAt_iff δ e o).symm
+
+/-- the transmitted fields of an encoded report are 17-bit values -/
+theorem report_fields_lt (nb i : ℕ) (lat lon : ℚ) :
+    (report nb i lat lon).lat < 131072 ∧ (report nb i lat lon).lon < 131072 := by
+  unfold report Spec.Cpr.encode
+  constructor
+  · show (Spec.Cpr.yz nb i lat % 131072).toNat < 131072
+    omega
+  · show (Spec.Cpr.xz nb i (Spec.Cpr.rlat nb i lat) lon % 131072).toNat < 131072
+    omega
+
 end Rs1090.Proofs.CprFloat
